@@ -8,9 +8,11 @@ import (
 	_ "hv/props/c05"
 	_ "hv/props/c06"
 	_ "hv/props/c07"
+	_ "hv/props/c08"
 	_ "hv/props/c10"
 	_ "hv/props/c11"
 	_ "hv/props/c12"
 	_ "hv/props/c13"
+	_ "hv/props/c17"
 	_ "hv/props/c18"
 )
